@@ -30,6 +30,8 @@ def check(run, model, tier):
     run.rule('COUNT.timer-loop', 'one post and one increment per passing iteration; counter from 0; clear iff total != 0 and counter >= total; guard re-reads flag')
     run.rule('ORDER.timer-iter', 'sleep < re-test < post; no sleep on the first iteration iff not deferred')
     run.rule('WIRING.timer', 'period -> sleep, times -> total, deferred, tag -> post method; defaults times 0 / deferred True')
+    from props.c11 import cancel_callers
+    cancel_callers(run, model)
     t, pe, spawn = timer_runner(model)
     g = cfg_of(t)
     run.touch(t, g)
